@@ -98,6 +98,8 @@ func propertyOracle(s *Spec, r *Run) []Failure {
 			conv = s.MaxIt >= hugeIt || (s.Hook && nhook < s.MaxIt)
 		case "gd":
 			conv = true
+		case "adam":
+			conv = neval < s.MaxIt
 		case "bfgs":
 			conv = s.MaxIt >= hugeIt
 		case "ls":
@@ -223,6 +225,10 @@ func genHuntSpec(r *Rng) Spec {
 	s.Obj.ErrAfter, s.Obj.NaNAfter, s.Obj.ErrAbove = -1, -1, 0
 	s.Cap = 4000
 	switch s.Routine {
+	case "adam":
+		if s.Eps == 0 {
+			s.Eps = 1e-2
+		}
 	case "rprop", "rprop_dense", "bfgs":
 		if r.Intn(4) != 0 {
 			s.MaxIt = 1000000
